@@ -539,6 +539,7 @@ NLW2_SOLReadResultCode SOLReader2<SOLHandler>::gsufread(FILE* f) {
     if (sufheadcheck(&SR))
       return ReportBadLine(buf);
     if (!fgets(buf, sizeof(buf)-1, f)
+        || strlen(buf) < (size_t)SR.h.namelen
         || (buf[SR.h.namelen-1] != '\n'
             && (buf[SR.h.namelen-1] != '\r'
                 || buf[SR.h.namelen] != '\n')))
